@@ -114,4 +114,28 @@ theorem commit_poisons_readers (vs : List Version) (clock : Nat) (ti tj : Txn) (
     exact ⟨(k, v), hv, rfl⟩
   · simp; omega
 
+/-- without a conflict, a key of the read set has no committed version newer than the snapshot, so reading it at
+    any later timestamp gives what the snapshot gave -/
+theorem noConflict_read_current (vs : List Version) (t : Txn) (h : hasConflict vs t = false) (k : Key)
+    (hk : k ∈ t.reads) (ts : Nat) (hts : t.startTs ≤ ts) : readAt vs ts k = readAt vs t.startTs k := by
+  unfold hasConflict at h
+  rw [List.any_eq_false] at h
+  have hk'' := h k hk
+  have hk' : ∀ v ∈ vs, ¬ (v.key == k && decide (v.ts > t.startTs)) = true := by
+    intro v hv hp
+    exact hk'' (List.any_eq_true.mpr ⟨v, hv, hp⟩)
+  unfold readAt
+  have : vs.filter (fun v => v.key == k && decide (v.ts ≤ ts)) =
+      vs.filter (fun v => v.key == k && decide (v.ts ≤ t.startTs)) := by
+    apply List.filter_congr
+    intro v hv
+    have hv' := hk' v hv
+    cases hkey : (v.key == k)
+    · simp
+    · simp only [hkey, Bool.true_and, Bool.not_eq_true, decide_eq_false_iff_not, Nat.not_lt] at hv'
+      simp only [Bool.true_and]
+      have h1 : v.ts ≤ ts := Nat.le_trans hv' hts
+      simp [h1, hv']
+  rw [this]
+
 end Defra.Mvcc
